@@ -25,7 +25,7 @@ from ..interp import fmt, contains
 from ..model import AnalysisError, ClassInfo, _dotted
 from .. import q
 from .. import roles
-from .c11 import helper_lock_field
+from .c11 import helper_lock_field, gate_flag
 
 PLUS = {"append", "appendleft", "insert", "add"}
 MINUS = {"pop", "popleft", "remove", "discard"}
@@ -233,11 +233,11 @@ def pair_exec(ctx, rep):
         for p in ps:
             if p.status == "raise":
                 continue
-            flips = [e for e in p.evs("store") if e.d["target"][0] == "attr" and e.d["target"][2] == "is_shutdown" and e.d["value"] == ("const", True)]
+            flips = [e for e in p.evs("store") if e.d["target"][0] == "attr" and e.d["target"][2] == gate_flag(ctx) and e.d["value"] == ("const", True)]
             decs = [q.metric_of(e) for e in p.calls() if q.metric_of(e) and q.metric_of(e)[0] == "EXEC_INPROGRESS"]
             for b in p.evs("branch"):
                 t = b.d[0]
-                if isinstance(t, tuple) and t[0] == "attr" and t[2] == "is_shutdown" and it.type_of(t[1], p) == "C:" + helper.key:
+                if isinstance(t, tuple) and t[0] == "attr" and t[2] == gate_flag(ctx) and it.type_of(t[1], p) == "C:" + helper.key:
                     locked = any(l[1] == ("attr", t[1], lockfield) for l in b.locks)
                     rep.ob("R-PAIR-E", "%s.shutdown: 'first shutdown' decided atomically" % ci.name, locked, "the flag is read outside the helper's lock, so two concurrent shutdown() calls can both dec the gauge", where_of(b.fn, b.node), trace_of(p, b.seq))
             if flips:
